@@ -793,7 +793,13 @@ def b_from(c, ctx):
         else:
             c.families = ["FFrom (TTuple RNo %s)" % c_list(u_(t, g) for t in ts)]
         return it
-    it = enum_of(ctx, "em", "any")
+    for _ in range(12):
+        it = enum_of(ctx, "em", "any")
+        # `From<T> for E<T>` (a bare parameter as the only field) overlaps with the impl of every other variant
+        if it.variants[0].fields[0].ty not in [p["n"] for p in g["params"]]:
+            break
+    else:
+        return None
     v0, v1, v2 = it.variants
     f0 = "FFrom (TTuple RNo %s)" % c_list(u_(f.ty, g) for f in v0.fields)
     f1 = "FFrom (TTuple RNo %s)" % c_list(u_(f.ty, g) for f in v1.fields)
@@ -947,8 +953,17 @@ def b_tryfrom(c, ctx):
 
 def b_tryinto(c, ctx):
     g = ctx.g
-    for _ in range(8):
+    for _ in range(12):
         it = enum_of(ctx, c.shape, "any")
+        if c.shape == "e1":
+            # two single-field variants: their types must not unify (Vec<u8> / Vec<T> would give overlapping impls)
+            slots = [v.fields[0] for v in it.variants[:2]]
+            nonvoid = [f for f in slots if f.ty != VOID]
+            vals = ["i32", uni(g) if has_lt_or_ty(g) else "String"]
+            if len(nonvoid) == 1:
+                nonvoid[0].ty = vals[1]
+            else:
+                slots[0].ty, slots[1].ty = vals
         if orphan_safe([f.ty for f in it.all_fields()], g):
             break
     else:
